@@ -77,8 +77,9 @@ let run_case (line : string) : string =
   let n, k, vals = match hs with n :: k :: v -> n, k, v | _ -> failwith "head" in
   let rows = List.init n (fun t -> List.init k (fun c -> z_of_int (List.nth vals (t * k + c)))) in
   let p = prog_of (parse_sx body) in
+  let wf = if wf_prog p then "true" else "false" in
   match compile p with
-  | None -> "{\"compiled\":false}"
+  | None -> "{\"compiled\":false,\"wf\":" ^ wf ^ "}"
   | Some cp ->
       let skel = show_skel (published_skeleton cp) in
       let refr = match ref_run p Z0 rows st0 with
@@ -91,7 +92,7 @@ let run_case (line : string) : string =
           | Some (((o, w), pos), tr) ->
               Printf.sprintf "{\"out\":%s,\"words\":%s,\"pos\":%d,\"trace\":[%s]}" (ints o) (ints w) (int_of_n pos)
                 (String.concat "," (List.map (fun ((kk, pp), ss) -> Printf.sprintf "[%d,%d,%d]" (int_of_n kk) (int_of_n pp) (int_of_n ss)) tr))) rs) ^ "]" in
-      Printf.sprintf "{\"compiled\":true,\"skel\":\"%s\",\"ref\":%s,\"vm\":%s,\"wasm\":%s}" skel refr (mach VmD) (mach WasmD)
+      Printf.sprintf "{\"compiled\":true,\"wf\":%s,\"skel\":\"%s\",\"ref\":%s,\"vm\":%s,\"wasm\":%s}" wf skel refr (mach VmD) (mach WasmD)
 
 let () =
   try
